@@ -353,3 +353,44 @@ func (ff *FuncFacts) Expand(ls []Lit) []Lit {
 	}
 	return out
 }
+
+// Alternatives returns the ways a branch literal can hold, as a disjunction of
+// literals: for a plain condition just the literal itself; for a short-circuit
+// boolean phi (`a || b` as a value) one alternative per incoming edge that can
+// produce the polarity (the edge's own branch literal for constant operands,
+// the operand otherwise). Nested phis are expanded.
+func (ff *FuncFacts) Alternatives(l Lit) []Lit {
+	v, pol := l.Cond, l.Pol
+	for {
+		if u, ok := v.(*ssa.UnOp); ok && u.Op.String() == "!" {
+			v, pol = u.X, !pol
+			continue
+		}
+		break
+	}
+	phi, ok := v.(*ssa.Phi)
+	if !ok {
+		return []Lit{{Cond: v, Pol: pol, If: l.If}}
+	}
+	var out []Lit
+	for k, e := range phi.Edges {
+		if cb, isConst := ConstBool(e); isConst {
+			if cb != pol {
+				continue
+			}
+			p := phi.Block().Preds[k]
+			if i := ifOf(p); i != nil && len(p.Succs) == 2 {
+				idx := 0
+				if p.Succs[1] == phi.Block() {
+					idx = 1
+				}
+				out = append(out, ff.Alternatives(Lit{Cond: i.Cond, Pol: idx == 0, If: i})...)
+			} else {
+				out = append(out, Lit{Cond: e, Pol: pol})
+			}
+			continue
+		}
+		out = append(out, ff.Alternatives(Lit{Cond: e, Pol: pol, If: l.If})...)
+	}
+	return out
+}
